@@ -371,6 +371,10 @@ class Check:
         json.dump(ev, open(os.path.join(VERIF, "evidence", self.prop + ".json"), "w"), indent=1, default=str)
         for k in sorted(self.known_hits):
             print("KNOWN-FINDING: property=%s %s [%s]" % (self.prop, self.known_hits[k], k))
+        # every listed finding gets its line; the ones above were reproduced by this run, the ones below were not reached by its inputs
+        for f in self.known:
+            if f["key"] not in self.known_hits:
+                print("KNOWN-FINDING: property=%s %s [%s] (listed; not reached by the inputs of this %s run)" % (self.prop, f["what"], f["key"], self.tier))
         self.violations.sort(key=lambda v: (v[3], len(v[1])))
         if len(self.violations) > 5:
             print("# %d distinct violation keys; showing the 5 with the shortest description" % len(self.violations))
